@@ -81,7 +81,7 @@ def make_content(rng, names, cls, tier):
     if cls == "boundary":
         # size coincidences: byte / character length exactly at (or one off) a typical block size, a multi-byte character
         # straddling that offset, and a witness that ends exactly at the end of the text
-        n = rng.choice([4096, 8192, 8192, 16384, 65536])
+        n = rng.choice([4096, 4096, 8192, 8192, 8192, 16384, 65536])
         delta = rng.choice([-1, 0, 0, 1, 2])
         tail = rng.choice([t[-12:] or "ab12", "k=7", "abc", "42", "is", "x"])
         filler_unit = (t[:30] or "ab 12 cd") + rng.choice(["\n", " ", "\r\n"])
@@ -189,7 +189,8 @@ def generate(run_seed, tier):
             if "with_context" in m and wl.random() < 0.15:
                 try:
                     tl = len(bytes.fromhex(files[path][wl.randrange(len(files[path]))]).decode("utf-8"))
-                    kw[wl.choice(["n_left", "n_right"])] = max(0, tl + wl.choice([-1, 0, 1]))   # window == text length
+                    if tl <= 1500:           # (every match carries a window: keep the result small)
+                        kw[wl.choice(["n_left", "n_right"])] = max(0, tl + wl.choice([-1, 0, 1]))   # window == text length
                 except UnicodeDecodeError:
                     pass
             if m.startswith("iterate_"):
